@@ -3,6 +3,8 @@ import hashlib, os, re, shutil, subprocess, tempfile
 from .. import core, progdiff
 from ..gen import Lib, ProgGen
 
+PROOF_MODULES = ['Resynth.Props.C13', 'Resynth.Props.C13Layout']
+
 RULE = ("generated programs (valid and failing) compiled by the real binary repeatedly under varied TZ/LANG/LC_ALL/HOME/"
         "cwd/output directory, alone and inside batches in different orders; outputs (sha256 of pcap, normalised "
         "diagnostics, exit status) must be identical to each other and to the model; text-level variants (comments, blank "
